@@ -12,9 +12,31 @@ TITLES = {"C01": "handle histories", "C02": "memory operation histories", "C03":
 _tolerate = ()
 
 
+def _corpus(prop):
+    import os
+    d = os.path.join(common.VERIF, "corpus", prop)
+    out = []
+    try:
+        names = sorted(os.listdir(d))
+    except OSError:
+        return out
+    for n in names:
+        if n.endswith(".json"):
+            try:
+                with open(os.path.join(d, n)) as f:
+                    out.append([l.split() for l in json.load(f)["history"]])
+            except (OSError, ValueError, KeyError):
+                pass
+    return out
+
+
 def _task(t):
     prop, seed = t
-    ops, fam = hcheck.generate(seed, prop)
+    if isinstance(seed, list):        # a corpus history
+        ops, fam = seed, ["corpus"]
+        seed = 0
+    else:
+        ops, fam = hcheck.generate(seed, prop)
     r = hcheck.check_history(ops, tolerate=_tolerate)
     r["seed"] = seed
     r["families"] = fam
@@ -66,6 +88,8 @@ def main(prop, tier):
     crashes = [0]
 
     def tasks():
+        for h in _corpus(prop):
+            yield (prop, h)
         i = 0
         while True:
             yield (prop, common.run_seed(seed, i, prop))
